@@ -313,3 +313,52 @@ def shape_scan(chk, repo, clause, modules, skip=()):
         chk.ob(clause, 'U-shape-scan', f.key, 'no operation mixes two different axes of one array', not cl,
                '; '.join(cl[:3]) if cl else f'declared 2-D: {sorted(k[1] for k, v in decl.items() if len(v) == 2)}', f.loc())
     return n
+
+
+PROPERTY_MODULES = {
+    'C01': ['fourier'], 'C02': ['propagate', 'fourier', 'extent', 'field', 'wavefront', 'util'],
+    'C03': ['plane', 'helper', 'field', 'wavefront', 'propagate'], 'C04': ['plane', 'field', 'propagate', 'wavefront'],
+    'C05': ['fourier', 'propagate', 'util', 'wavefront'], 'C06': ['field', 'extent'],
+    'C07': ['wavefront', 'plane', 'field'], 'C08': ['plane', 'propagate', 'ptype', 'wavefront'],
+    'C09': ['propagate', 'util', 'field'], 'C11': ['zernike', 'helper', 'util'], 'C12': ['zernike'],
+    'C13': ['radiometry'], 'C14': ['radiometry'], 'C15': ['radiometry'], 'C16': ['detector', 'radiometry'],
+    'C17': ['plane', 'util'], 'C18': ['detector', 'wfe', 'helper'], 'C19': ['detector', 'convolvable'],
+    'C20': ['util', 'helper', 'shape', 'segmented'],
+}
+
+
+def no_hidden_state(chk, repo, pid):
+    """Results depend only on the arguments: no function of the property's
+    modules keeps state in a module-level object (written by a function), and no
+    memoised value is written or handed out.  A necessary condition of every
+    'for all inputs the function returns ...' property: such state makes the
+    result depend on the call history (e.g. a cache keyed on an incomplete set
+    of arguments).  Evaluated first so that it is reported even when a later,
+    structure-specific rule no longer recognises the code."""
+    from ..effects import Effects
+    clause = f'{pid}-m'
+    mods = PROPERTY_MODULES[pid]
+    chk.clause(clause, 'results depend only on the arguments: no module-level state is written by the functions of '
+               + ', '.join(mods), 1)
+    eff = Effects(repo)
+    n = 0
+    bad = []
+    for f in repo.all_functions():
+        if f.module.name not in mods:
+            continue
+        n += 1
+        s = eff.summary(f)
+        for name, how, loc in s.global_writes:
+            bad.append((f.key, name, how, loc))
+        for ck, how, loc in s.cached_writes:
+            bad.append((f.key, 'memoised result of ' + ck, how, loc))
+    seen = set()
+    for fk, name, how, loc in bad:
+        if (fk, name) in seen:
+            continue
+        seen.add((fk, name))
+        chk.ob(clause, 'E4-module-state', fk, f'keeps state in `{name}`', False,
+               f'{how} on the module-level / memoised object `{name}`: later calls see what earlier calls left there, '
+               f'so the result is not a function of the arguments alone', loc)
+    chk.ob(clause, 'E4-module-state', '+'.join(mods), 'no hidden state', not bad, f'{n} functions scanned', '')
+    return eff
